@@ -184,6 +184,9 @@ def check(ck: Checker) -> None:
     from . import round5 as _r5
 
     _r5.deleted_files_before_dirs(ck, "C05.guard")
+    from . import round7 as _r7
+
+    _r7.dir_token_exact(ck, "C05.dirtoken")
 
 
 def _check_overwrite(ck, fn, g, n, c, dest, guarded_removers, depth):
